@@ -7,7 +7,7 @@ use rtcp_types::*;
 fn bye_roundtrip<S: Src, const NS: usize, const L: usize, const B: usize>(s: &mut S, c: &ByeCfg<NS, L>) {
     let k = s.upto(if NS > 0 { NS - 1 } else { 0 });
     let j = s.upto(if L > 0 { L - 1 } else { 0 });
-    let mut buf = [0u8; B];
+    let mut buf = [0xA5u8; B];
     match c.builder().write_into(&mut buf) {
         Ok(n) => {
             assert!(n + 4 <= B, "HARNESS: buffer array too small");
@@ -77,7 +77,7 @@ pub fn bye_reason_owned<S: Src>(s: &mut S) {
     let j = s.upto(5);
     // owned-reason variant of the builder
     let b = Bye::builder().padding(pad).add_source(src).reason_owned(reason.as_str().to_owned());
-    let mut buf = [0u8; 32];
+    let mut buf = [0xA5u8; 32];
     if let Ok(n) = b.write_into(&mut buf) {
         let p = Bye::parse(&buf[..n]).expect("own parser rejects the built BYE");
         assert!(p.ssrcs().next() == Some(src));
@@ -101,7 +101,7 @@ pub fn app<S: Src, const L: usize, const B: usize>(s: &mut S, maxpad: u8) {
     let c = AppCfg::draw_with(s, data);
     s.assume(c.padding <= maxpad);
     let j = s.upto(if L > 0 { L - 1 } else { 0 });
-    let mut buf = [0u8; B];
+    let mut buf = [0xA5u8; B];
     match c.builder().write_into(&mut buf) {
         Ok(n) => {
             assert!(n + 4 <= B, "HARNESS: buffer array too small");
